@@ -458,7 +458,7 @@ def parseGlycanAux (names : List Str) : Nat → Str → Comp → Except Err Comp
         let cnt := (spanP isCountChar ((c :: r).drop nm.length)).1
         match countOf cnt with
         | none => .error .invalidGlycanFormula
-        | some v => parseGlycanAux names (nm.length + cnt.length - 1) r (setTo d nm v)
+        | some v => parseGlycanAux names (nm.length + cnt.length - 1) r (addTo d nm v)   -- d.get(name, 0) + count (fix 4cd4abe; before: assignment)
 
 /-- `parse_glycan_formula(formula, sep)` -/
 def parseGlycan (mono : List Entry) (s : Str) (sep : Str) : Except Err Comp :=
